@@ -85,6 +85,22 @@ def gen_instance(r, gdesc):
             l = low()
             if l[0] < minm or l[1] < minq:
                 extras.append([m[0], m[1], [[l[0], l[1], r.randint(3, 12)]]])
+    # a structure with fewer copies at some sites than it has configurations (deletion / fused copies): a variant there
+    # whose support lies between the threshold for the structure's copy count and the (higher) one for the copies the
+    # site really has must not survive the evidence filter
+    ncfg = len(structure)
+    sites_lo = [m for m in allm if 0 < cn_sol.position_cn(m[0]) < ncfg and m[1][:3] != "ins" and not any(t[0] == m[0] and t[1] == m[1] for t in table)]
+    if sites_lo and r.random() < 0.6:
+        mp, mo = r.choice(sites_lo)
+        c_here = cn_sol.position_cn(mp)
+        f_lo, f_hi = 0.5 / (ncfg + 0.5), 0.5 / (c_here + 0.5)
+        f = (f_lo + f_hi) / 2
+        table = [e for e in table if not (e[0] == mp and e[1] == "_")]
+        R = 40
+        kk = round(f * R / (1 - f))
+        if kk >= 2 and f_lo + 0.01 < kk / (R + kk) < f_hi - 0.01 and int(prof.get("min_coverage", "1")) <= kk:
+            table.append([mp, "_", [[60, 60, R]]])
+            table.append([mp, mo, [[60, 60, kk]]])
     # refinement asked to look for variants outside the database too (`novel=True`): a substitution at an exonic position
     # that no catalogued variant occupies, seen only in reads below the thresholds, must not become one
     novel = False
